@@ -738,7 +738,11 @@ def vmake_symbol(node, context):
 
 
 def parse(x):
-    return evaluate(parser(x))
+    tree = parser(x)
+    if tree is None:
+        loc = opparse.Location(source=x, filename="<string>", start=0, end=0)
+        raise loc.syntax_error("Empty selector")
+    return evaluate(tree)
 
 
 def _find_eval_env(s, fr, skip):
